@@ -8,8 +8,9 @@
 EXTENDS Wire, Json, IOUtils, TLCExt, SequencesExt
 Traces == JsonDeserialize(IOEnv.TRACE_FILE)
 NT == Len(Traces)
-VARIABLES t, l, bad, devs, answers, ended
-tvars == <<vars, t, l, bad, devs, answers, ended>>
+VARIABLES t, l, bad, devs, answers, ended,
+          obroken      \* the second connection's socket has failed on sending
+tvars == <<vars, t, l, bad, devs, answers, ended, obroken>>
 ASSUME \A i \in 1 .. NT : TLCSet(i, 1) /\ TLCSet(NT + i, "") /\ TLCSet(2 * NT + i, {})
 Ev == Traces[t][l]
 
@@ -44,43 +45,47 @@ OtherVerdict(e) ==       \* a line on the second connection of the same dispatch
 NonMalDigests == LET f == SelectSeq(answers, LAMBDA a : ~a.mal) IN [i \in 1 .. Len(f) |-> f[i].dig]
 
 Verdict ==
-    CASE Ev.ev = "chunk_in" -> <<IF ended THEN "input after the handler ended" ELSE "", {}>>
-      [] Ev.ev = "line_out" -> OutVerdict(Ev.o)
-      [] Ev.ev = "other_out" -> OtherVerdict(Ev)
-      [] Ev.ev = "handler_end" -> <<IF Ev.reason # "eof" THEN "HandlerSurvives"
-                                    ELSE IF pend # <<>> THEN "OnePerLine.line_unanswered" ELSE "", {}>>
+    CASE Ev.ev = "chunk_in" -> <<IF ended \/ peer # "open" THEN "input after the end" ELSE "", {}>>
+      [] Ev.ev = "line_out" -> IF peer = "deaf" THEN <<"NoWriteAfterFailure", {}>> ELSE OutVerdict(Ev.o)
+      [] Ev.ev = "other_out" -> IF obroken THEN <<"NoWriteAfterFailure", {}>> ELSE OtherVerdict(Ev)
+      [] Ev.ev = "other_fail" -> <<"", {}>>
+      [] Ev.ev = "peer" -> <<IF peer = "open" /\ ~ended THEN "" ELSE "peer event out of place", {}>>
+      [] Ev.ev = "handler_end" ->       \* Wire!HandlerEnd: only after the peer left, never by an exception
+            <<IF Ev.reason # "returned" \/ peer = "open" THEN "HandlerSurvives"
+              ELSE IF peer = "eof" /\ pend # <<>> THEN "OnePerLine.line_unanswered" ELSE "", {}>>
       [] Ev.ev = "ni" -> <<IF NonMalDigests = Ev.ref THEN "" ELSE "NonInterference", {}>>
       [] Ev.ev = "same" -> <<IF [i \in 1 .. Len(answers) |-> answers[i].dig] = Ev.ref THEN ""
                              ELSE "ChunkingIndependence", {}>>
       [] Ev.ev = "frag" -> <<IF Ev.half = 1
-                             THEN (IF \E u \in Threads : pc[u] = "half" THEN "LinesWhole" ELSE "")
+                             THEN (IF torn THEN "NoWriteAfterFailure"
+                                   ELSE IF \E u \in Threads : pc[u] = "half" THEN "LinesWhole" ELSE "")
                              ELSE (IF pc[Ev.th] = "half" THEN "" ELSE "LinesWhole"), {}>>
+      [] Ev.ev = "frag_fail" -> <<IF pc[Ev.th] = "half" THEN "" ELSE "LinesWhole", {}>>
       [] Ev.ev = "codec" -> IF ~(Ev.a2 = Ev.a /\ Ev.s2 = Ev.s /\ Ev.d2 = Ev.d) THEN <<"Codec.inverse", {}>>
                             ELSE IF Ev.utf8 /\ Ev.strict THEN <<"", {}>>
                             ELSE IF Ev.utf8 /\ Ev.nanonly THEN <<"", {"Dev_NaN"}>>
                             ELSE <<"Codec.wellformed", {}>>
       [] OTHER -> <<"unknown event", {}>>
 
+IsReply == Ev.ev = "line_out" /\ ~IsAsync(Ev.o, pend)
 Effect ==
-    CASE Ev.ev = "chunk_in" -> pend' = pend \o Ev.reqs /\ UNCHANGED <<answers, ended, pc>>
-      [] Ev.ev = "line_out" ->
-            IF IsAsync(Ev.o, pend) THEN UNCHANGED <<pend, answers, ended, pc>>
-            ELSE /\ pend' = Tail(pend)
-                 /\ answers' = Append(answers, [mal |-> Head(pend).mal, dig |-> Ev.o.dig])
-                 /\ UNCHANGED <<ended, pc>>
-      [] Ev.ev = "handler_end" -> ended' = TRUE /\ UNCHANGED <<pend, answers, pc>>
-      [] Ev.ev = "frag" -> /\ pc' = [pc EXCEPT ![Ev.th] = IF Ev.half = 1 THEN "half" ELSE "idle"]
-                           /\ UNCHANGED <<pend, answers, ended>>
-      [] OTHER -> UNCHANGED <<pend, answers, ended, pc>>
+    /\ pend' = IF Ev.ev = "chunk_in" THEN pend \o Ev.reqs ELSE IF IsReply THEN Tail(pend) ELSE pend
+    /\ answers' = IF IsReply THEN Append(answers, [mal |-> Head(pend).mal, dig |-> Ev.o.dig]) ELSE answers
+    /\ ended' = (ended \/ Ev.ev = "handler_end")
+    /\ peer' = IF Ev.ev = "peer" THEN Ev.what ELSE peer
+    /\ obroken' = (obroken \/ Ev.ev = "other_fail")
+    /\ torn' = (torn \/ Ev.ev = "frag_fail")
+    /\ pc' = IF Ev.ev = "frag" THEN [pc EXCEPT ![Ev.th] = IF Ev.half = 1 THEN "half" ELSE "idle"]
+             ELSE IF Ev.ev = "frag_fail" THEN [pc EXCEPT ![Ev.th] = "idle"] ELSE pc
 
 TInit == /\ FIdle /\ LInit /\ SInit
-         /\ t \in 1 .. NT /\ l = 1 /\ bad = "" /\ devs = {} /\ answers = <<>> /\ ended = FALSE
+         /\ t \in 1 .. NT /\ l = 1 /\ bad = "" /\ devs = {} /\ answers = <<>> /\ ended = FALSE /\ obroken = FALSE
 
 TStep == /\ bad = "" /\ l <= Len(Traces[t])
          /\ t' = t
          /\ LET v == Verdict IN
             IF v[1] = "" THEN /\ Effect /\ l' = l + 1 /\ bad' = "" /\ devs' = devs \cup v[2]
-            ELSE /\ bad' = v[1] /\ UNCHANGED <<l, devs, pend, answers, ended, pc>>
+            ELSE /\ bad' = v[1] /\ UNCHANGED <<l, devs, pend, answers, ended, pc, peer, torn, obroken>>
          /\ UNCHANGED <<fvars, last, serving, lock>>
 
 TSpec == TInit /\ [][TStep]_tvars
